@@ -262,7 +262,17 @@ class Parser:
                 if not self.accept(','): break
             self.expect('}')
             return ('struct', name, generics, fields, line, derives)
-        if self.at('enum') or self.at('trait') or self.at('union'):
+        if self.at('trait'):
+            self.next(); name = self.ident(); self.generics_decl()
+            if self.accept(':'): self.bounds()
+            if self.at('where'): self.where_clause()
+            self.expect('{'); items = []
+            while not self.at('}'):
+                it = self.item()
+                if it is not None: items.append(it)
+            self.expect('}')
+            return ('trait', name, items, line)
+        if self.at('enum') or self.at('union'):
             kind = self.next().val; name = self.ident()
             self.skip_to_semi_or_block()
             return (kind, name, line)
@@ -859,6 +869,7 @@ def walk_fns(items, impl=None, mod=None):
             assoc = dict((x[1], x[2]) for x in it[4] if x[0] == 'type')
             yield from walk_fns(it[4], (it[2], it[3], it[1], assoc), mod)
         elif it[0] == 'mod': yield from walk_fns(it[2], impl, it[1])
+        elif it[0] == 'trait': pass     # default methods are instantiated per implementing type by the translator
 
 if __name__ == '__main__':
     root = sys.argv[1]
